@@ -6,6 +6,7 @@ use crate::tape::{run_tapes, Tape};
 use serde_json::json;
 
 fn parse_debug_of(text: &str) -> String {
+    crate::engine::note_current("parse", text);
     match std::panic::catch_unwind(|| nederlang::parser::parse(text)) {
         Ok(Ok(t)) => format!("{t:?}"),
         Ok(Err(e)) => format!("parse error: {e:?}"),
